@@ -248,6 +248,7 @@ def run(ctx):
         raise core.MachineryError("harness produced records outside the spec's domain: %s" % bad[:5])
     ctx.judge(jobs, recs, verdicts, what=rc.describe)
     ctx.extra["verdict_counts"] = rc.count_verdicts(recs, verdicts)
+    rc.note_never_judged(ctx, recs, verdicts)
     seen = set()
     for j, r, v in zip(jobs, recs, verdicts):
         if v[0].startswith("skip:"):
